@@ -224,6 +224,10 @@ func init() {
 		last.Name = "genesis-last-efund"
 		last.Visit = exportImport(last)
 		last.VisitPure = true
+		ef := efundScenario()
+		ef.Name = "genesis-efund"
+		ef.Visit = exportImport(ef)
+		ef.VisitPure, ef.VisitAfterPrefix = true, true
 		return &Check{ID: "C15",
 			Runs: []Run{{S: sc, Opt: map[Tier]Options{
 				Quick:    {Depth: 2, Budget: 150 * time.Second, ReplayEvery: 16},
@@ -237,6 +241,9 @@ func init() {
 			}}, {S: last, Opt: map[Tier]Options{
 				Quick:    {Depth: 2, Budget: 100 * time.Second, ReplayEvery: 16},
 				Thorough: {Depth: 4, Budget: 5 * time.Minute, ReplayEvery: 32, MaxStates: 60000},
+			}}, {S: ef, Opt: map[Tier]Options{
+				Quick:    {Depth: 1, Budget: 100 * time.Second, ReplayEvery: 16},
+				Thorough: {Depth: 2, Budget: 5 * time.Minute, ReplayEvery: 32, MaxStates: 60000},
 			}}},
 			Owns: ownsAny("genesis."),
 			Extra: func(t Tier, ev *Evidence) []Violation {
